@@ -92,7 +92,7 @@ def operands(text):
 
 
 def supported(text):
-    if re.search(r"HEX_REG_ALIAS|fcirc_add|usr_field|get_npc|REGFIELD|FLOAT|DOUBLE|fUN|trap|STORE_SLOT|bundle|pkt\b", text):
+    if re.search(r"HEX_REG_ALIAS|fcirc_add|usr_field|get_npc|REGFIELD|FLOAT|DOUBLE|fUN|trap|STORE_SLOT|bundle|pkt\b|\bu?int[124]_t\b", text):
         return False
     ops = operands(text)
     if ops is None:
